@@ -5,6 +5,7 @@ P=$1; D=$(realpath $2); SUITE=$3
 WT=/tmp/seedtest_$(echo $P | tr A-Z a-z)_$$
 git -C /repo worktree add --detach $WT HEAD >/dev/null 2>&1 || exit 2
 trap "git -C /repo worktree remove --force $WT >/dev/null 2>&1" EXIT
+cp /repo/spsdk/__version__.py $WT/spsdk/ 2>/dev/null
 export SPSDK_CACHE_FOLDER=$WT/.cache
 echo "== demo on clean tree"; (cd $WT && PYTHONPATH=$WT /venv/bin/python $D/demo.py 2>&1 | tail -2); echo "rc=$?"
 git -C $WT apply $D/patch.diff || { echo "patch does not apply"; exit 2; }
